@@ -368,7 +368,23 @@ func (x *szExec) eval(st *szState, e ast.Expr) sym {
 				return sym{kind: symInt, n: linAtom("op(" + e.Op.String() + ";" + l.n.String() + ";" + r.n.String() + ")")}
 			}
 		}
-		return sym{kind: symPath, path: "(" + l.text() + " " + e.Op.String() + " " + r.text() + ")"}
+		// comparisons in one canonical form, so that the two functions of a
+		// pair may write the same test either way round: a > b as b < a,
+		// a >= b as b <= a, a != b as !(a == b), operands of == in text order
+		lt, rt, op := l.text(), r.text(), e.Op
+		switch op {
+		case token.GTR:
+			lt, rt, op = rt, lt, token.LSS
+		case token.GEQ:
+			lt, rt, op = rt, lt, token.LEQ
+		}
+		if (op == token.EQL || op == token.NEQ) && rt < lt {
+			lt, rt = rt, lt
+		}
+		if op == token.NEQ {
+			return sym{kind: symPath, path: negText("(" + lt + " == " + rt + ")")}
+		}
+		return sym{kind: symPath, path: "(" + lt + " " + op.String() + " " + rt + ")"}
 	case *ast.CallExpr:
 		return x.evalCall(st, e)
 	case *ast.CompositeLit:
@@ -1458,7 +1474,9 @@ func infeasible(conds []string) bool {
 	return false
 }
 
-var reLenZero = regexp.MustCompile(`^!\(\(\((len\([^()]*(\([^()]*\))?[^()]*\))\) > \(0\)\)\)$`)
+// canonical forms (see eval): len(P) > 0 and 0 < len(P) both read !((0) < (len(P))) when false; len(P) == 0 reads ((0) == (len(P)))
+var reLenZero = regexp.MustCompile(`^!\(\(\(0\) < \((len\([^()]*(\([^()]*\))?[^()]*\))\)\)\)$`)
+var reLenZeroEq = regexp.MustCompile(`^\(\(0\) == \((len\([^()]*(\([^()]*\))?[^()]*\))\)\)$`)
 
 // underConds simplifies an expression using the path condition: when
 // len(P) > 0 is known to be false, terms that are sums over len(P) or
@@ -1466,6 +1484,9 @@ var reLenZero = regexp.MustCompile(`^!\(\(\((len\([^()]*(\([^()]*\))?[^()]*\))\)
 func underConds(l lin, conds []string) lin {
 	for _, c := range conds {
 		m := reLenZero.FindStringSubmatch(c)
+		if m == nil {
+			m = reLenZeroEq.FindStringSubmatch(c)
+		}
 		if m == nil {
 			continue
 		}
